@@ -1,4 +1,5 @@
 import Martian.Generated.Shape
+import Martian.Generated.Proxy
 import Martian.Model.Shape
 /-!
 C18 — structural facts of `trafficshape/*.go` and of `Proxy.handle`, regenerated from the source on
@@ -152,6 +153,20 @@ theorem facts_handle_context_per_response :
     (["Shaping: true", "ByteOffset: rangeStart", "RangeStart: rangeStart", "HeaderLen: int64(len(dump))",
       "HeaderBytesWritten: 0", "NextActionInfo = GetNextActionFromByte(rangeStart)",
       "ThrottleContext = GetCurrentThrottle(rangeStart)", "SetCapacity Bandwidth"].all handleContextSet.contains) = true := by
+  decide
+
+/-- In `Proxy.handle` the decision to close the connection (`res.Close = true`, which makes
+`res.Write` add `Connection: close` to the head) is taken BEFORE the shaping context is built, so
+the `HeaderLen` measured there by `DumpResponse` is the length of the head that is really written,
+and both come before the response is written.  (`Shape.setContext` takes the head length of the
+response as it goes out; the end-to-end tier compares it with the head the client received.) -/
+theorem facts_handle_close_decision_before_context :
+    firstIdx "if req.Close || res.Close || p.Closing() {" Martian.Generated.Proxy.handle <
+      firstIdx "shaping-context-block" Martian.Generated.Proxy.handle ∧
+    firstIdx "shaping-context-block" Martian.Generated.Proxy.handle < firstIdx "call res.Write" Martian.Generated.Proxy.handle ∧
+    firstIdx "call res.Write" Martian.Generated.Proxy.handle < Martian.Generated.Proxy.handle.length ∧
+    (Martian.Generated.Proxy.handle.filter (· == "shaping-context-block")).length = 1 ∧
+    (Martian.Generated.Proxy.handle.filter (· == "if req.Close || res.Close || p.Closing() {")).length = 1 := by
   decide
 
 end Martian.Props.C18
